@@ -89,6 +89,11 @@ where
         schema,
     })?;
 
+    validation::validate_subscription_root_fields(&BoundQuery {
+        query: &resolved_query,
+        schema,
+    })?;
+
     for (selection_id, _) in resolved_query.selections() {
         selection::validate_type_conditions(
             selection_id,
